@@ -998,6 +998,91 @@ def inline_private_helpers(idx: Index, fi: FunctionInfo, depth: int = 2, skip: O
     return FunctionInfo(name=fi.name, qualname=fi.qualname, module=fi.module, node=node, cls=fi.cls, decorators=list(fi.decorators))
 
 
+def loopify_comprehensions(idx: Index, fi: FunctionInfo) -> FunctionInfo:
+    """A copy of `fi` in which `X = [ELT for t in IT]` / `X = {K: V for t in IT}` (one generator, no filter, X a plain name) whose
+    element calls a private multi-statement helper is written as the loop it abbreviates (`X = []` + `for t in IT: X.append(ELT)`;
+    `X = {}` + `for t in IT: X[K] = V`), so that `inline_private_helpers` can put the helper's statements in place.  A
+    comprehension has its own scope: the rewrite is only done when every other read of the loop variable's name in the function sits
+    inside a loop / comprehension that binds that name itself."""
+    m = fi.module
+
+    def free_reads(root: ast.AST, names: Set[str], exclude: ast.AST) -> bool:
+        """True if some read of one of `names` under root (outside `exclude`) is not under a For / comprehension binding it."""
+        def walk(n: ast.AST, bound: Set[str]) -> bool:
+            if n is exclude:
+                return False
+            if isinstance(n, ast.Name):
+                return isinstance(n.ctx, ast.Load) and n.id in names and n.id not in bound
+            if isinstance(n, (ast.For, ast.AsyncFor)):
+                b2 = bound | {x.id for x in ast.walk(n.target) if isinstance(x, ast.Name)}
+                return walk(n.iter, bound) or any(walk(c, b2) for c in n.body) or any(walk(c, bound) for c in n.orelse)
+            if isinstance(n, (ast.ListComp, ast.SetComp, ast.GeneratorExp, ast.DictComp)):
+                b2 = bound | {x.id for g_ in n.generators for x in ast.walk(g_.target) if isinstance(x, ast.Name)}
+                return any(walk(c, b2) for c in ast.iter_child_nodes(n))
+            return any(walk(c, bound) for c in ast.iter_child_nodes(n))
+        return walk(root, set())
+
+    def has_helper(e: ast.AST) -> bool:
+        for c in ast.walk(e):
+            if isinstance(c, ast.Call):
+                fn = c.func
+                name = fn.id if isinstance(fn, ast.Name) else fn.attr if isinstance(fn, ast.Attribute) and isinstance(fn.value, ast.Name) and fn.value.id in ("self", "cls") else None
+                if name is None or not name.startswith("_") or name.startswith("__"):
+                    continue
+                g = m.functions.get(name) if isinstance(fn, ast.Name) else (idx.find_method(fi.cls, name) if fi.cls is not None else None)
+                if g is None or g.module is not m:
+                    continue
+                sb = _simple_body(g)
+                if sb is not None and sb[0]:
+                    return True
+        return False
+    changed = [0]
+
+    def process(stmts_: List[ast.stmt]) -> List[ast.stmt]:
+        out: List[ast.stmt] = []
+        for s in stmts_:
+            for fld in ("body", "orelse", "finalbody"):
+                v = getattr(s, fld, None)
+                if isinstance(v, list) and v and isinstance(v[0], ast.stmt):
+                    setattr(s, fld, process(v))
+            if isinstance(s, ast.Assign) and len(s.targets) == 1 and isinstance(s.targets[0], ast.Name) and isinstance(s.value, (ast.ListComp, ast.DictComp)) \
+                    and len(s.value.generators) == 1 and not s.value.generators[0].ifs and not s.value.generators[0].is_async \
+                    and has_helper(s.value.elt if isinstance(s.value, ast.ListComp) else ast.Tuple(elts=[s.value.key, s.value.value], ctx=ast.Load())):
+                x = s.targets[0].id
+                ge = s.value.generators[0]
+                tnames = {n.id for n in ast.walk(ge.target) if isinstance(n, ast.Name)}
+                if any(isinstance(n, ast.Name) and n.id == x for n in ast.walk(s.value)) or free_reads(node, tnames, s.value):
+                    out.append(s)
+                    continue
+                changed[0] += 1
+                if isinstance(s.value, ast.ListComp):
+                    init = ast.List(elts=[], ctx=ast.Load())
+                    body = ast.Expr(value=ast.Call(func=ast.Attribute(value=ast.Name(id=x, ctx=ast.Load()), attr="append", ctx=ast.Load()),
+                                                   args=[s.value.elt], keywords=[]))
+                else:
+                    init = ast.Dict(keys=[], values=[])
+                    body = ast.Assign(targets=[ast.Subscript(value=ast.Name(id=x, ctx=ast.Load()), slice=s.value.key, ctx=ast.Store())], value=s.value.value,
+                                      lineno=s.lineno)
+                a0 = ast.copy_location(ast.Assign(targets=[ast.Name(id=x, ctx=ast.Store())], value=init, lineno=s.lineno), s)
+                tgt = copy.deepcopy(ge.target)
+                for n in ast.walk(tgt):
+                    if isinstance(n, ast.Name):
+                        n.ctx = ast.Store()
+                lp = ast.copy_location(ast.For(target=tgt, iter=ge.iter, body=[ast.copy_location(body, s)], orelse=[], lineno=s.lineno), s)
+                for z in (a0, lp):
+                    ast.fix_missing_locations(z)
+                out += [a0, lp]
+                continue
+            out.append(s)
+        return out
+    node = copy.deepcopy(fi.node)
+    node.body = process(list(node.body))
+    if not changed[0]:
+        return fi
+    ast.fix_missing_locations(node)
+    return FunctionInfo(name=fi.name, qualname=fi.qualname, module=fi.module, node=node, cls=fi.cls, decorators=list(fi.decorators))
+
+
 # ---------------------------------------------------------------------- abstract evaluation of small literal lists
 
 def bind_target(target: ast.AST, value: ast.AST, env: Dict[str, ast.AST]) -> Optional[Dict[str, ast.AST]]:
